@@ -183,6 +183,7 @@ fn apply(o: Obj, c: &Value, k: usize, salt: usize) -> Result<Obj, String> {
                     i += w_;
                 }
                 if w.len() != v.len() { return Err(format!("writer reports len {} after {} bits", w.len(), v.len())); }
+                if w.filename() != path.as_path() || !w.is_open() || w.is_empty() != v.is_empty() { return Err(format!("writer accessors: filename {:?}, is_open {}, is_empty {}", w.filename(), w.is_open(), w.is_empty())); }
                 if salt % 3 == 0 { drop(w); } else { w.close().map_err(|e| e.to_string())?; }
                 serialize::load_from::<RawVector, _>(&path).map_err(|e| format!("load_from writer file failed: {}", e))
             })();
@@ -195,6 +196,7 @@ fn apply(o: Obj, c: &Value, k: usize, salt: usize) -> Result<Obj, String> {
                 let mut w = if salt % 5 == 4 { IntVectorWriter::new(&path, v.width()) } else { IntVectorWriter::with_buf_len(&path, v.width(), [64, 128, 1024, 4096][salt % 4]) }.map_err(|e| e.to_string())?;
                 if salt % 2 == 0 { for x in v.iter() { w.push(x); } } else { w.extend(v.iter().filter(|_| true)); }
                 if w.len() != v.len() { return Err(format!("writer reports len {} after {} items", w.len(), v.len())); }
+                if w.filename() != path.as_path() || !w.is_open() || w.is_empty() != v.is_empty() || w.width() != v.width() { return Err(format!("writer accessors: filename {:?}, is_open {}, is_empty {}, width {}", w.filename(), w.is_open(), w.is_empty(), w.width())); }
                 if salt % 3 == 0 { drop(w); } else { w.close().map_err(|e| e.to_string())?; }
                 serialize::load_from::<IntVector, _>(&path).map_err(|e| format!("load_from writer file failed: {}", e))
             })();
@@ -211,10 +213,12 @@ fn apply(o: Obj, c: &Value, k: usize, salt: usize) -> Result<Obj, String> {
                 match &o { Obj::Raw(v) => v.serialize(&mut f), Obj::Int(v) => v.serialize(&mut f), _ => unreachable!() }.map_err(|e| e.to_string())?;
                 drop(f);
                 let map = MemoryMap::new(&path, MappingMode::ReadOnly).map_err(|e| format!("MemoryMap::new failed: {}", e))?;
+                if map.filename() != path.as_path() || map.mode() != MappingMode::ReadOnly || map.is_empty() { return Err(format!("map accessors: filename {:?}, mode {:?}, is_empty {}", map.filename(), map.mode(), map.is_empty())); }
                 match &o {
                     Obj::Raw(v) => {
                         let m = RawVectorMapper::new(&map, lead).map_err(|e| format!("RawVectorMapper::new failed: {}", e))?;
                         if m.len() != v.len() { return Err(format!("mapper len {} != {}", m.len(), v.len())); }
+                        if m.is_mutable() || m.is_empty() != v.is_empty() || !v.is_mutable() { return Err(format!("mapper accessors: is_mutable {}, is_empty {}", m.is_mutable(), m.is_empty())); }
                         if m.count_ones() != v.count_ones() { return Err(format!("mapper count_ones {} != {}", m.count_ones(), v.count_ones())); }
                         if let Some(i) = (0..v.len()).find(|i| m.bit(*i) != v.bit(*i)) { return Err(format!("mapper bit {} differs", i)); }
                         if m.map_offset() != lead || m.map_offset() + m.map_len() != map.len() { return Err(format!("mapper offset {} len {} in a map of {} elements", m.map_offset(), m.map_len(), map.len())); }
